@@ -584,8 +584,8 @@ class FileProcessTensor(BaseProcessTensor):
 
         if self._f.attrs["writing"]:
             warnings.warn(
-                "File was closed during writing process and hence " \
-                "may be corrupt.", UserWarning)
+                f"File '{filename}' was closed during writing process and " \
+                "hence may be corrupt.", UserWarning)
 
         # hilber space dimension
         hs_dim = int(self._f["hs_dim"][0])
